@@ -50,6 +50,8 @@ pub enum BlockOffer {
     /// `len` pseudo-random bytes from `seed`
     Garbage(u64, u32),
     Empty,
+    /// (only as poison of an honest reply) a copy of the reply's own `i`-th block
+    ReplyBlock(u8),
 }
 
 #[derive(Clone, Debug, PartialEq, Eq, Serialize, Deserialize)]
@@ -87,6 +89,8 @@ pub enum ReplySpec {
         poison: BlockOffer,
         at: u8,
     },
+    /// The honest answer with its blocks in reverse order (children before parents).
+    HonestReversed { max_blocks: u8, max_next: u8 },
     /// A paged reply for one block with an explicit page count (`pages` follow-ups).
     Paged { block: usize, follow_ups: u8, max_next: u8 },
 }
